@@ -53,6 +53,18 @@ func AddMeta(d *Design, r *lp.Rng, both bool) {
 			m.Meta = append(m.Meta, expr("method", i*5+j)...)
 		}
 	}
+	// one result attribute whose example has to be searched for: a format whose random values rarely match the pattern
+	// (the example generator retries; the output must still be a function of the design alone)
+	for _, s := range d.Services {
+		for _, m := range s.Methods {
+			if m.Result != nil && m.Result.Type != nil && (m.Result.Type.IsObject || len(m.Result.Type.Object) > 0) {
+				m.Result.Type.Object = append(m.Result.Type.Object, &Field{Name: "stamp",
+					Att: &Att{Type: &Type{Prim: "String"}, Val: &Validation{Format: "date", Pattern: "^20[2-9][0-9]-"}}})
+				goto done
+			}
+		}
+	}
+done:
 	// attributes of named object types: struct tags and extensions
 	for _, t := range d.Types {
 		if t.Att == nil || t.Att.Type == nil {
